@@ -171,6 +171,17 @@ func c05Build(c C05Case) (parts []part, cfg h.Config, be *h.Backend, want []stri
 		default:
 			want = append(want, "550", "250") // every other BDAT command gets exactly one reply
 		}
+	case "odd-separator":
+		// white space other than one SP between the arguments: the server may take it or refuse it, but it knows the
+		// size and must not execute the chunk either way
+		cmd("MAIL FROM:<ok@a.example>")
+		cmd("RCPT TO:<ok@b.example>")
+		want = append(want, "250", "250")
+		g++
+		cmd(c.BadCmd)
+		pay(c.Msg)
+		cmd("NOOP")
+		want = append(want, "2xx|5xx", "250")
 	case "malformed":
 		cmd("MAIL FROM:<ok@a.example>")
 		cmd("RCPT TO:<ok@b.example>")
@@ -280,6 +291,9 @@ func evalC05(c C05Case) *h.Finding {
 		if r == "5xx" {
 			return code/100 == 5
 		}
+		if r == "2xx|5xx" {
+			return code/100 == 5 || code/100 == 2
+		}
 		return r == fmt.Sprint(code)
 	}
 	// Known sub-space D6: the limiter counted payload octets.
@@ -335,6 +349,21 @@ func evalC05(c C05Case) *h.Finding {
 		if marks != 1 {
 			return h.F("c05-marker", "%s: marker command executed %d times", desc, marks)
 		}
+	} else if c.State == "odd-separator" {
+		// taken (250, delivered as it is) or refused (5xx, skipped): the two must agree
+		delivered := false
+		for _, e := range o.Trace {
+			if (e.Kind == "Data" || e.Kind == "LMTPData") && e.ReadErr == "EOF" {
+				delivered = bytes.Equal(e.Body, c.Msg)
+				if !delivered {
+					return h.F("c05-body-differs", "%s: backend read %q, want %q", desc, e.Body, c.Msg)
+				}
+			}
+		}
+		n := len(o.Replies)
+		if accepted := n >= 2 && o.Replies[n-2].Class() == 2; accepted != delivered {
+			return h.F("c05-replies", "%s: the chunk was answered %s but delivered=%t", desc, o.Codes(), delivered)
+		}
 	} else if !(c.State == "overlimit" && len(c.Msg) < 2) && !(c.State == "overlimit2" && len(c.Msg) == 0) { // without a configurable limit below its size the chunk is accepted
 		for _, e := range o.Trace {
 			if (e.Kind == "Data" || e.Kind == "LMTPData") && e.ReadErr == "EOF" {
@@ -361,7 +390,7 @@ func C05(tier string) int {
 		bytes.Repeat([]byte("a"), lim-1), bytes.Repeat([]byte("b"), lim+1), bytes.Repeat([]byte("c"), 3*lim),
 		append(bytes.Repeat([]byte{0xfe}, lim+1), '\n'), append([]byte("\n"), bytes.Repeat([]byte("d"), lim+1)...),
 	}
-	run.Rule = fmt.Sprintf("messages = all strings of <=%d octets over {CR,LF,'.',NUL,0xFF,'a'} plus %d fixed payloads (CRLF.CRLF, command look-alikes, LF-free runs of line-limit-1, +1, x3 with the line limit set to %d) x every division into <=%d chunks (empty chunks, LAST on empty or non-empty) x segmentation {command/payload in separate segments, pipelined group per segment, everything in one segment, one octet per segment} x {SMTP, LMTP, LMTP per-recipient}; refused BDAT (no MAIL, all RCPT rejected, bad LAST token, over the size limit on the first and on a later chunk) (each followed by a further chunk that would fit: refused as well) and a backend that fails without reading the chunk (two recipients: one reply per BDAT, one per recipient only for LMTP LAST) x payloads (all strings <=%d + fixed) x segmentations; malformed BDAT lines. Distinct by construction; non-trivial = payload contains CR, LF, '.', NUL, 0xFF or is longer than the line limit, or the command is refused. every accepted conversation continues with a second two-chunk message (in the 'pipelined group' segmentation under a size limit that each message fits but not both together). Oracle: one Data call per message whose reader yields the concatenation then EOF; exactly the expected reply per command; markers executed once; no payload octet executed.", maxLen, len(fixed), lim, maxParts, refLen)
+	run.Rule = fmt.Sprintf("messages = all strings of <=%d octets over {CR,LF,'.',NUL,0xFF,'a'} plus %d fixed payloads (CRLF.CRLF, command look-alikes, LF-free runs of line-limit-1, +1, x3 with the line limit set to %d) x every division into <=%d chunks (empty chunks, LAST on empty or non-empty) x segmentation {command/payload in separate segments, pipelined group per segment, everything in one segment, one octet per segment} x {SMTP, LMTP, LMTP per-recipient}; refused BDAT (no MAIL, all RCPT rejected, bad LAST token, over the size limit on the first and on a later chunk) (each followed by a further chunk that would fit: refused as well) and a backend that fails without reading the chunk (two recipients: one reply per BDAT, one per recipient only for LMTP LAST) x payloads (all strings <=%d + fixed) x segmentations; malformed BDAT lines; BDAT lines with TAB / several spaces between the arguments and a bait chunk (taken or refused, never executed). Distinct by construction; non-trivial = payload contains CR, LF, '.', NUL, 0xFF or is longer than the line limit, or the command is refused. every accepted conversation continues with a second two-chunk message (in the 'pipelined group' segmentation under a size limit that each message fits but not both together). Oracle: one Data call per message whose reader yields the concatenation then EOF; exactly the expected reply per command; markers executed once; no payload octet executed.", maxLen, len(fixed), lim, maxParts, refLen)
 	run.Assumptions = []string{"payload octet classes {CR, LF, '.', NUL, 0xFF, other}", "known finding linelimit-counts-bdat-payload (DESIGN.md D6) is matched by signature AND by an independent simulation of the limiter's sub-space; any other mismatch is a violation"}
 	var cases []C05Case
 	modes := []string{"smtp", "lmtp", "lmtp-rcpt"}
@@ -423,6 +452,14 @@ func C05(tier string) int {
 					}
 					cases = append(cases, C05Case{Mode: mode, State: st, Msg: p, Seg: seg, LineLimit: ll})
 				}
+			}
+		}
+	}
+	for _, sep := range []string{"\t", "  ", " \t "} {
+		for _, mode := range modes {
+			for _, seg := range segsAll {
+				bait := []byte("MAIL FROM:<bait@x>\r\n")
+				cases = append(cases, C05Case{Mode: mode, State: "odd-separator", Msg: bait, BadCmd: fmt.Sprintf("BDAT %d%sLAST", len(bait), sep), Seg: seg})
 			}
 		}
 	}
